@@ -63,7 +63,11 @@ F(kind, req, safe, impl) == [kind |-> kind, req |-> req, safe |-> safe, impl |->
      vpdur      validatePositive on a timeutil.Duration (effective)
      vpint      validatePositive on an integer (effective iff IntsValidated)
      free       not checked
-     cross      see ImplCross                                          *)
+     cross      see ImplCross
+   filters/custom_filter_cache_size: configuration.md used to say "zero means
+   no caching", but the value goes to custom.New -> agdcache.NewLRU, whose
+   count "must be positive" (gcache panics otherwise), and validate() passes
+   it to validatePositive: modelled as pos.                               *)
 FieldList == <<
   <<"ratelimit/response_size_estimate",                              F("size",   "pos",       "pos",       "vpint")>>,
   <<"ratelimit/ipv4/count",                                          F("uint",   "pos",       "pos",       "vpint")>>,
